@@ -46,6 +46,8 @@ type vthread struct {
 	resume chan struct{}
 	ev     chan int // yield point number, or -1 when the goroutine finished
 	wake   bool     // false: parked before the shard mutex (points 9/10); true: parked in front of / inside a wake-up pass
+	sweep  bool     // a sweep (checkTimeOut / checkExpried driver loop body) run as a thread: parks at 14/15 in front of each
+	//                 per-lock call, at 3/4 in front of that call's wake-up pass and at 7 inside it; never moved in the list
 }
 
 func vn16(b [16]byte) uint64 {
@@ -433,6 +435,36 @@ func (e *verifEngine) start(f []string) {
 	}
 }
 
+// start a sweep as a scheduled thread: the driver-loop head and the collection(s) run up to the first yield point
+// (14 / 15: in front of the first doTimeOut / doExpried call)
+func (e *verifEngine) startSweep(isT bool) {
+	t := &vthread{resume: make(chan struct{}), ev: make(chan int), wake: true, sweep: true}
+	e.cur = t
+	go func() {
+		defer func() { t.ev <- -1 }()
+		defer e.goPanic()
+		if isT {
+			e.sweepT()
+		} else {
+			e.sweepE()
+		}
+	}()
+	p := <-t.ev
+	e.cur = nil
+	if p != -1 {
+		e.threads = append(e.threads, t)
+	}
+}
+
+func (e *verifEngine) firstSweep() int {
+	for i, t := range e.threads {
+		if t.sweep {
+			return i
+		}
+	}
+	return -1
+}
+
 func (e *verifEngine) resumeThread(j int) {
 	if len(e.threads) == 0 {
 		return
@@ -465,6 +497,19 @@ func (e *verifEngine) action(f []string) {
 	case "drain":
 		for n := 0; len(e.threads) > 0 && n < 100000; n++ {
 			e.resumeThread(0)
+		}
+	case "startsweept":
+		e.startSweep(true)
+	case "startsweepe":
+		e.startSweep(false)
+	case "drainsweeps":
+		// every parked sweep runs to its end (first one first); parked requests stay parked
+		for n := 0; n < 100000; n++ {
+			i := e.firstSweep()
+			if i < 0 {
+				break
+			}
+			e.resumeThread(i)
 		}
 	case "bulk":
 		// bulk n conn reqbase lockidbase key tflag timeout eflag expried count rcount : n LOCK requests with
